@@ -63,6 +63,15 @@ def run(ctx):
             sim.append(json.loads(s))
     os.remove(raw)
     ctx.notes["simulated_sentences"] = len(sim)
+    # "any extra whitespace, line breaks or '%' comments between values" also in front of the first value: a sample of the sentences once more with a
+    # leading blank, line break or comment (same denotation)
+    lead = []
+    for j, x in enumerate(vec + sim):
+        if j % 40 == ctx.seed % 40 and x["text"]:
+            for pre in ([32], [10, 32, 32], [37, 32, 116, 119, 111, 10]):
+                lead.append(dict(text=pre + x["text"], exp=x["exp"], ntok=x["ntok"]))
+    ctx.notes["sentences_with_leading_separator"] = len(lead)
+    sim = sim + lead
     p = ctx.write_ndjson("in.ndjson", vec + sim)
     ctx.driver("pretty_driver", "asan", ["sentence", p, ctx.path("log.ndjson")], timeout=3000)
     n = judge(ctx, ctx.path("log.ndjson"), "generated")
